@@ -38,6 +38,7 @@ Mons  == 1..NMon
 Trs   == 1..NTr
 
 NonMovableMock == 3                  \* mock id 3 is the driver's non-movable mock type (one function, f(int)); it is never moved
+WatchedMock == 4                     \* mock id 4 is a deathwatched mock: it is also watched object 4 (one function, f(int)); never moved
 MonH(k)   == 100 + k                 \* handle of monitor k in a sequence list
 IsMonH(h) == h > 100
 NPar(f)   == IF f = 3 THEN 2 ELSE 1
@@ -319,7 +320,7 @@ DestroyMockStep(st, m) ==
 
 MoveMockStep(st, m, m2) ==
   IF ~(m \in Mocks /\ m2 \in Mocks) THEN Skip(st) ELSE
-  IF ~st.malive[m] \/ st.malive[m2] \/ m = NonMovableMock \/ m2 = NonMovableMock THEN Skip(st)
+  IF ~st.malive[m] \/ st.malive[m2] \/ m \in {NonMovableMock, WatchedMock} \/ m2 \in {NonMovableMock, WatchedMock} THEN Skip(st)
   ELSE [st |-> [st EXCEPT !.malive[m2] = TRUE,
                           !.act[m2] = st.act[m], !.sat[m2] = st.sat[m],
                           !.act[m] = [f \in Fns |-> <<>>], !.sat[m] = [f \in Fns |-> <<>>]],
@@ -420,7 +421,10 @@ AssignObjStep(st, o, o2) ==       \* assignment: everybody keeps their own requi
 Step(st, ev) ==
   LET a == ev.a IN
   CASE ev.e = "mock"    -> IF a[1] \in Mocks /\ ~st.malive[a[1]]
-                           THEN [st |-> [st EXCEPT !.malive[a[1]] = TRUE], obs |-> Obs0] ELSE Skip(st)
+                           THEN (IF a[1] = WatchedMock /\ WatchedMock \in Objs
+                                 THEN [st |-> [st EXCEPT !.malive[a[1]] = TRUE, !.obj[WatchedMock] = [alive |-> TRUE, mons |-> <<>>]], obs |-> Obs0]
+                                 ELSE [st |-> [st EXCEPT !.malive[a[1]] = TRUE], obs |-> Obs0])
+                           ELSE Skip(st)
     [] ev.e = "seq"     -> IF a[1] \in Seqs /\ ~st.qalive[a[1]]
                            THEN [st |-> [st EXCEPT !.qalive[a[1]] = TRUE, !.pend[a[1]] = <<>>], obs |-> Obs0] ELSE Skip(st)
     [] ev.e = "expect"  -> ExpectStep(st, a)
@@ -430,11 +434,16 @@ Step(st, ev) ==
                            ELSE [st |-> [r.st EXCEPT !.exp[a[1]].scoped = TRUE], obs |-> r.obs]
     [] ev.e = "swatch"  -> LET r == WatchStep(st, a) IN
                            IF r.obs.skip = 1 THEN r ELSE [st |-> [r.st EXCEPT !.mon[a[1]].scoped = TRUE], obs |-> r.obs]
-    [] ev.e = "call"    -> IF a[1] \in Mocks /\ a[2] \in Fns /\ st.malive[a[1]] /\ (a[1] # NonMovableMock \/ a[2] = 1)
+    [] ev.e = "call"    -> IF a[1] \in Mocks /\ a[2] \in Fns /\ st.malive[a[1]] /\ (~(a[1] \in {NonMovableMock, WatchedMock}) \/ a[2] = 1)
                            THEN CallStep(st, a[1], a[2], IF a[2] = 3 THEN <<a[3], a[4]>> ELSE <<a[3]>>)
                            ELSE Skip(st)
     [] ev.e = "release" -> ReleaseStep(st, a[1])
-    [] ev.e = "dmock"   -> DestroyMockStep(st, a[1])
+    [] ev.e = "dmock"   -> IF a[1] = WatchedMock /\ WatchedMock \in Objs /\ a[1] \in Mocks /\ st.malive[a[1]]
+                           THEN \* the deathwatched part goes first (derived destructor), then the mock part
+                                LET r1 == DestroyObjStep(st, WatchedMock)
+                                    r2 == DestroyMockStep(r1.st, WatchedMock)
+                                IN  [st |-> r2.st, obs |-> [r2.obs EXCEPT !.reps = r1.obs.reps \o r2.obs.reps, !.anyreps = r1.obs.anyreps]]
+                           ELSE DestroyMockStep(st, a[1])
     [] ev.e = "mmock"   -> MoveMockStep(st, a[1], a[2])
     [] ev.e = "dseq"    -> DestroySeqStep(st, a[1])
     [] ev.e = "obj"     -> IF a[1] \in Objs /\ ~st.obj[a[1]].alive
